@@ -15,6 +15,7 @@ import (
 
 	"github.com/nspcc-dev/neo-go/pkg/config"
 	"github.com/nspcc-dev/neo-go/pkg/core/native/nativenames"
+	"github.com/nspcc-dev/neo-go/pkg/core/native/noderoles"
 	"github.com/nspcc-dev/neo-go/pkg/core/state"
 	"github.com/nspcc-dev/neo-go/pkg/crypto/hash"
 	"github.com/nspcc-dev/neo-go/pkg/crypto/keys"
@@ -439,6 +440,8 @@ type cnrOp struct {
 	Key     string   `json:"key,omitempty"`
 	Expire  int64    `json:"expire,omitempty"`
 	Data    []byte   `json:"data,omitempty"`
+	Role    int      `json:"role,omitempty"`   // designate: native role (4 StateValidator, 8 Oracle, 16 NeoFSAlphabet, 32 P2PNotary)
+	Keys    [][]byte `json:"keys,omitempty"`   // designate: public keys
 	Signers []int    `json:"signers"` // -1 alphabet, -2 committee, i>=0 owner i (the payer always signs first)
 	DT      uint64   `json:"dt,omitempty"` // extra milliseconds before this block
 }
@@ -544,6 +547,12 @@ func (c *cnrEnv) exec(op cnrOp) cnrObs {
 		r, ts = c.invokeAt(op.DT, sg, c.nns, "addRecord", op.Name, 16, op.Data)
 	case "nnsDelTxt":
 		r, ts = c.invokeAt(op.DT, sg, c.nns, "deleteRecords", op.Name, 16)
+	case "designate":
+		ks := make([]any, len(op.Keys))
+		for i, k := range op.Keys {
+			ks[i] = k
+		}
+		r, ts = c.invokeAt(op.DT, sg, c.E.NativeHash(c.T, nativenames.Designation), "designateAsRole", int64(op.Role), ks)
 	default:
 		panic(op.Kind)
 	}
@@ -1671,6 +1680,51 @@ func (g *cnrGen) resubmitPut() *cnrOp {
 	return &op
 }
 
+// cnrRoleKeys: keys that are not committee members.
+func cnrRoleKeys() [][]byte {
+	var out [][]byte
+	for i := 0; i < 3; i++ {
+		out = append(out, cnrKey("role", i).PublicKey().Bytes())
+	}
+	return out
+}
+
+// committeeKeys: public keys of the committee (= the Alphabet), in committee order.
+func (c *cnrEnv) committeeKeys() [][]byte {
+	var out [][]byte
+	for _, k := range c.keys {
+		out = append(out, k.PublicKey().Bytes())
+	}
+	return out
+}
+
+// designation builds a RoleManagement.designateAsRole call whose list differs
+// from the committee: a superset, a disjoint set, a proper subset / single
+// member, or the committee itself in reverse order.  The Alphabet of the
+// contracts is the committee whatever is designated.
+func (c *cnrEnv) designation(role noderoles.Role, variant int) cnrOp {
+	ck, rk := c.committeeKeys(), cnrRoleKeys()
+	var ks [][]byte
+	switch variant % 5 {
+	case 0: // committee + two strangers
+		ks = append(append(ks, ck...), rk[0], rk[1])
+	case 1: // disjoint
+		ks = append(ks, rk[0], rk[1], rk[2])
+	case 2: // one committee member + one stranger
+		ks = append(ks, ck[len(ck)-1], rk[2])
+	case 3: // the committee, reversed
+		for i := len(ck) - 1; i >= 0; i-- {
+			ks = append(ks, ck[i])
+		}
+	default: // a single stranger
+		ks = append(ks, rk[1])
+	}
+	return cnrOp{Kind: "designate", Role: int(role), Keys: ks, Signers: []int{-2}}
+}
+
+var cnrRoles = []noderoles.Role{noderoles.NeoFSAlphabet, noderoles.NeoFSAlphabet, noderoles.NeoFSAlphabet,
+	noderoles.P2PNotary, noderoles.Oracle, noderoles.StateValidator}
+
 func (g *cnrGen) pickCid() []byte {
 	r, c := g.r, g.c
 	var live, dead, fresh [][]byte
@@ -1717,6 +1771,16 @@ func (g *cnrGen) next(step int) cnrOp {
 	}
 	if step == 1 && r.Intn(6) != 0 {
 		return cnrOp{Kind: "setConfig", Key: "ContainerAliasFee", Amount: cnrFees[r.Intn(4)], Signers: []int{-1}}
+	}
+	if step == 2 && r.Intn(100) < 35 {
+		return c.designation(noderoles.NeoFSAlphabet, r.Intn(5)) // roles designated before the first put
+	}
+	if step > 2 && r.Intn(100) < 4 {
+		op := c.designation(cnrRoles[r.Intn(len(cnrRoles))], r.Intn(5))
+		if r.Intn(6) == 0 {
+			op.Signers = []int{r.Intn(cnrNOwners)} // not the committee: refused
+		}
+		return op
 	}
 	w := []int{40, 17, 14, 8, 4, 9, 8} // put delete setEACL mint transfer setConfig nns
 	if g.prop == "C05" {
@@ -1933,10 +1997,29 @@ func cnrCorpus(c *cnrEnv) [][]cnrOp {
 		del(0), del(0), // the second delete is a no-op without notification
 		eaclOp(cnrSigA, P[0], cnrTok), // deleted: not found
 		putE("put", cnrSigB, P[1], nil, "", false)} // replay under another envelope: refused
+	// native roles designated with lists that differ from the committee: the
+	// Alphabet that is paid (and whose size the balance check uses) stays the committee
+	roles := []cnrOp{fee("ContainerFee", 7), fee("ContainerAliasFee", 1),
+		mint(0, 7*N), mint(1, 1000), mint(2, 7*N+8*N),
+		c.designation(noderoles.NeoFSAlphabet, 0), // committee + two strangers
+		put(0, cnrTok),                            // balance = fee*N exactly: accepted, N transfers
+		c.designation(noderoles.NeoFSAlphabet, 1), // disjoint from the committee
+		put(1, cnrTok),
+		c.designation(noderoles.P2PNotary, 0), c.designation(noderoles.Oracle, 1), c.designation(noderoles.StateValidator, 4),
+		put(2, cnrTok),                            // owner 2: 15*N -> 8*N
+		c.designation(noderoles.NeoFSAlphabet, 2), // one member + one stranger
+		named(2, "aaa", "", al),                   // (7+1)*N exactly
+		c.designation(noderoles.NeoFSAlphabet, 3), // the committee reversed
+		put(3, cnrTok),
+		{Kind: "designate", Role: int(noderoles.NeoFSAlphabet), Keys: cnrRoleKeys(), Signers: []int{0}}, // not the committee: refused
+		c.designation(noderoles.NeoFSAlphabet, 4), // a single stranger
+		put(2, cnrTok),                            // owner 2 holds 0: refused
+		del(0)}
 	return [][]cnrOp{
 		selfPay,
 		sizes,
 		envelope,
+		roles,
 		{ // F13: a second alias for a live container; delete removes only the last one
 			fee("ContainerFee", 7), fee("ContainerAliasFee", 1), mint(0, 1000), mint(1, 1000),
 			put(0, cnrTok),
@@ -2043,6 +2126,12 @@ func cnrOpString(op cnrOp) string {
 		return fmt.Sprintf("transfer(from=%s to=%s amount=%v signers=%v)", short(op.From), short(op.To), op.Amount, op.Signers)
 	case "setConfig":
 		return fmt.Sprintf("setConfig(%s=%v signers=%v)", op.Key, op.Amount, op.Signers)
+	case "designate":
+		var ks []string
+		for _, k := range op.Keys {
+			ks = append(ks, Hex(k[:5]))
+		}
+		return fmt.Sprintf("designate(role=%d keys=%v signers=%v)", op.Role, ks, op.Signers)
 	default:
 		return fmt.Sprintf("%s(name=%s expire=%d data=%q signers=%v dt=%d)", op.Kind, op.Name, op.Expire, op.Data, op.Signers, op.DT)
 	}
@@ -2051,10 +2140,10 @@ func cnrOpString(op cnrOp) string {
 func runContainerFamily(t *testing.T, prop string) {
 	st := NewStats(prop)
 	if prop == "C04" {
-		st.Rule = "histories = 7 corpus witnesses (+2 on a four-key committee in the quick tier) + seeded structured generation over 3 owners + the Alphabet nodes' own accounts as owners, 6+ short container blobs (version-field lengths 0,2,5) and blobs of 252, 253, 254, 255, 256, 300, 1024, 4096 bytes and the largest size a transaction carries, eACL tables / tokens / signatures / name labels at their length boundaries, 3 names x 2 zones, malformed blobs/ids/names, missing witnesses; " +
+		st.Rule = "histories = 8 corpus witnesses (+3 on a four-key committee in the quick tier) + seeded structured generation over 3 owners + the Alphabet nodes' own accounts as owners, 6+ short container blobs (version-field lengths 0,2,5) and blobs of 252, 253, 254, 255, 256, 300, 1024, 4096 bytes and the largest size a transaction carries, eACL tables / tokens / signatures / name labels at their length boundaries, 3 names x 2 zones, malformed blobs/ids/names, missing witnesses, native roles (NeoFSAlphabet, P2PNotary, Oracle, StateValidator) designated with lists that differ from the committee; " +
 			"non-trivial = the history contains a successful put, a successful delete and a refused/faulting call; distinct = by the sequence of (operation kind, outcome) pairs"
 	} else {
-		st.Rule = "histories = 7 corpus witnesses (+2 on a four-key committee in the quick tier) + seeded structured generation (fees from {0,1,7,10^9,-1,2^254}, balances steered to fee*N-1, fee*N, fee*N+1, owners that are themselves fee recipients, named and unnamed puts, fee changes between puts); " +
+		st.Rule = "histories = 8 corpus witnesses (+3 on a four-key committee in the quick tier) + seeded structured generation (fees from {0,1,7,10^9,-1,2^254}, balances steered to fee*N-1, fee*N, fee*N+1, owners that are themselves fee recipients, named and unnamed puts, fee changes between puts, native roles designated with supersets / disjoint sets / subsets / permutations of the committee); " +
 			"non-trivial = the history contains a successful paying put (fee*N > 0) and a put refused or faulting; distinct = by the sequence of (operation kind, outcome, fee*N) triples"
 	}
 	q := newCnrCoq()
@@ -2073,7 +2162,7 @@ func runContainerFamily(t *testing.T, prop string) {
 	ncorpus := len(cnrCorpus(newCnrEnv(t, 1)))
 	extra := 0
 	if Tier() != "thorough" {
-		extra = 2 // two corpus histories on a four-key committee
+		extra = 3 // three corpus histories on a four-key committee
 	}
 	total := ncorpus*len(sizes) + extra + nh
 	flush := func(last bool) {
@@ -2118,7 +2207,12 @@ func runContainerFamily(t *testing.T, prop string) {
 					}
 				}
 			}
-			steps = append(steps, c.coqStep(q, op, o))
+			if op.Kind != "designate" {
+				// role designations are not invocations of the modelled contracts: they act
+				// on the environment only (like the committee size) and must leave every
+				// observable unchanged, which the monitor checks
+				steps = append(steps, c.coqStep(q, op, o))
+			}
 			st.Evaluations++
 			st.OpHistogram[op.Kind]++
 			oc := "halt"
@@ -2189,9 +2283,10 @@ func runContainerFamily(t *testing.T, prop string) {
 				corpusRun(ci, sz)
 			}
 		}
-		if extra > 0 { // quick tier: owner = Alphabet node and the F13 witness on a multi-key committee
+		if extra > 0 { // quick tier: owner = Alphabet node, designated roles and the F13 witness on a multi-key committee
 			corpusRun(0, 4)
 			corpusRun(3, 4)
+			corpusRun(4, 4)
 		}
 	}
 	for h := 0; h < nh; h++ {
